@@ -1,6 +1,7 @@
 package main
 
 import (
+	btpb "cloud.google.com/go/bigtable/apiv2/bigtablepb"
 	"strings"
 
 	btapb "cloud.google.com/go/bigtable/admin/apiv2/adminpb"
@@ -31,13 +32,13 @@ func makeC14Gen(r *Run) func(d *draws, m *btModel, i int) btOp {
 }
 
 // c14Mixes are operation mixes (swarm): create, delete, get, list, modify, drop-prefix, drop-all,
-// mutate, read. Mix 0 is the general one; the others concentrate on one mechanism so that
+// mutate, read, read-modify-write. Mix 0 is the general one; the others concentrate on one mechanism so that
 // multi-step situations (a clear after an interrupted clear, re-creation after deletion, schema
 // changes on populated tables) are reached often.
 var c14Mixes = [][]int{
-	{5, 2, 2, 2, 6, 3, 1, 8, 2},
-	{3, 3, 0, 0, 1, 2, 8, 8, 1},  // clear / delete / re-create heavy
-	{2, 1, 1, 0, 12, 2, 1, 8, 1}, // schema heavy
+	{5, 2, 2, 2, 6, 3, 1, 8, 2, 2},
+	{3, 3, 0, 0, 1, 2, 8, 8, 1, 1},  // clear / delete / re-create heavy
+	{2, 1, 1, 0, 12, 2, 1, 8, 1, 4}, // schema heavy
 }
 
 func makeC14GenMix(r *Run, mix int) func(d *draws, m *btModel, i int) btOp {
@@ -121,6 +122,15 @@ func makeC14GenMix(r *Run, mix int) func(d *draws, m *btModel, i int) btOp {
 			// data request with families the table may or may not have
 			gen.fams = []string{"f1", "f2"}
 			return btOp{Kind: "MutateRow", Table: t, Key: btRowKeys[d.n(len(btRowKeys))], Muts: gen.mutations(d, 3, false)}
+		case 9:
+			// cells written by ReadModifyWriteRow only (a family may hold nothing else)
+			t := pickTable(d, m)
+			fam := c14Fams[d.n(3)]
+			rule := &btpb.ReadModifyWriteRule{FamilyName: fam, ColumnQualifier: []byte("n"), Rule: &btpb.ReadModifyWriteRule_IncrementAmount{IncrementAmount: 1}}
+			if d.n(2) == 1 {
+				rule = &btpb.ReadModifyWriteRule{FamilyName: fam, ColumnQualifier: []byte("a"), Rule: &btpb.ReadModifyWriteRule_AppendValue{AppendValue: []byte("x")}}
+			}
+			return btOp{Kind: "RMW", Table: t, Key: btRowKeys[d.n(len(btRowKeys))], Rules: []*btpb.ReadModifyWriteRule{rule}}
 		default:
 			t := pickTable(d, m)
 			return btOp{Kind: "ReadAll", Table: t}
